@@ -172,13 +172,15 @@ FORMS = {
              sp.ExtentType(height=L(3, U.c), width=L(20, U.c)), sp.ExtentType(height=L(25, U.rh), width=L(75, U.rw)),
              sp.ExtentType(height=L(50, U.pct), width=L(640, U.px)), sp.ExtentType(height=L(THIRD, U.pct), width=L(200 / 3, U.pct)),
              sp.ExtentType(height=L(12.5, U.pct), width=L(0.25, U.pct)), sp.ExtentType(height=L(100, U.pct), width=L(100, U.pct)),
-             sp.ExtentType(height=L(0.00001, U.pct), width=L(50, U.pct)), sp.ExtentType(height=L(360, U.px), width=L(1234567, U.px))],
+             sp.ExtentType(height=L(0.00001, U.pct), width=L(50, U.pct)), sp.ExtentType(height=L(360, U.px), width=L(1234567, U.px)),
+             # numbers printed through the exponent fallback whose digits end in zeros (a careless rstrip eats them): 1000000, 1500000, 1e20
+             sp.ExtentType(height=L(1500000, U.px), width=L(1000000, U.px)), sp.ExtentType(height=L(0.00002, U.pct), width=L(1e20, U.px))],
   "FillLineGap": [True, False],
   "FontFamily": [(sp.GenericFontFamilyType.serif,), (sp.GenericFontFamilyType.default,), (sp.GenericFontFamilyType.monospaceSerif,),
                  ("Arial",), ("Times New Roman", sp.GenericFontFamilyType.sansSerif), ('Quo"ted',), ("O'Neil",), ("Back\\slash",), ("a,b", "c"),
                  ("x",), ("serif",), tuple(sp.GenericFontFamilyType), ("Arial", "Helvetica", sp.GenericFontFamilyType.proportionalSansSerif)],
   "FontSize": [L(150, U.pct), L(2, U.em), L(1, U.c), L(1.5, U.c), L(36, U.px), L(5, U.rh), L(3, U.rw), L(THIRD, U.pct), L(0.00001, U.c),
-               L(1234567, U.px), L(F(3, 2), U.c)],
+               L(1234567, U.px), L(F(3, 2), U.c), L(1000000, U.px), L(20000000, U.px), L(1234560, U.px), L(0.00005, U.em), L(1e-13, U.c)],
   "FontStyle": _enum_forms(sp.FontStyleType),
   "FontWeight": _enum_forms(sp.FontWeightType),
   "LineHeight": [NORMAL, L(125, U.pct), L(1.2, U.em), L(2, U.c), L(40, U.px), L(6, U.rh), L(THIRD * 4, U.pct)],
@@ -208,7 +210,7 @@ FORMS = {
                  [sp.RubyReserveType(sp.RubyReserveType.Position.before, L(1, U.em)), sp.RubyReserveType(sp.RubyReserveType.Position.after, L(2, U.c)),
                   sp.RubyReserveType(sp.RubyReserveType.Position.outside, L(10, U.px)), sp.RubyReserveType(sp.RubyReserveType.Position.both, L(5, U.rh)),
                   sp.RubyReserveType(sp.RubyReserveType.Position.both, L(50, U.pct))],
-  "Shear": [0.0, 16.67, -16.67, 100, -100, 50, 1e-5, THIRD],
+  "Shear": [0.0, 16.67, -16.67, 100, -100, 50, 1e-5, THIRD, 3e-5],
   "ShowBackground": _enum_forms(sp.ShowBackgroundType),
   "TextAlign": _enum_forms(sp.TextAlignType),
   "TextCombine": _enum_forms(sp.TextCombineType),
@@ -908,7 +910,11 @@ def roundtrip(rec, build, cfg_name, label, replay_args, note=""):
   try:
     root = et.fromstring(data)
   except et.ParseError as e:
-    return fail("xml", "not-well-formed", C_XML, f"the written document is not well-formed XML: {e}", observed=text[:1500])
+    # witness class: the document holds a character that XML 1.0 cannot represent at all (C0 controls other than TAB, LF, CR; U+FFFE, U+FFFF)
+    unrep = sorted({f"U+{ord(ch):04X}" for el in ([doc.get_body()] if doc.get_body() is not None else []) for x in el.dfs_iterator()
+                    if isinstance(x, m.Text) for ch in x.get_text() if (ord(ch) < 0x20 and ch not in "\t\n\r") or ord(ch) in (0xFFFE, 0xFFFF)})
+    return fail("xml", "not-well-formed" + (":character-not-representable-in-xml" if unrep else ""), C_XML,
+                f"the written document is not well-formed XML: {e}" + (f" (text holds {', '.join(unrep)})" if unrep else ""), observed=text[:1500])
   # 2. structure of the XML
   rec.evaluated(C_XML, fpk)
   probs = S.xml_structure_problems(doc, root)
